@@ -70,6 +70,16 @@ def one_case(rng, runq, todo, rep, dim, quick, idx):
         m = int(rng.integers(npts[0], npts[1] + 1))
         kind = ["uniform-dyadic", "nonuniform", "shifted"][int(rng.integers(3))]
         xs_list.append(fd.grid(rng, m, kind))
+    if dim >= 2 and idx % 3 == 2 and idx % 4 != 3:
+        # two dimensions sampled at the SAME points (a covariance surface) but with their own number of segments: each
+        # dimension still gets its own marginal basis
+        xs_list[1] = xs_list[0].copy()
+        if nsegs[1] == nsegs[0]:
+            nsegs[1] = nsegs[0] % max_seg + 1
+        while nsegs[1] + degs[1] <= d:
+            nsegs[1] += 1
+        if nsegs[1] == nsegs[0] and degs[1] == degs[0]:
+            degs[1] += 1
     doms = [(float(x[0]), float(x[-1])) for x in xs_list]
     explicit_dom = idx % 7 == 6          # an explicit spline domain wider than the grid (kwargs domain_min / domain_max)
     if explicit_dom:
